@@ -96,8 +96,9 @@ def eval (blk : String) (p x : List Nat) : Option (List Nat × String) :=
   -- p = [aw,rw,n]  x = [a]
   | "ShiftLeftConstant" => some ([shiftLeft p1 x0 p2], "")
   | "ShiftRightConstant" => some ([shiftRightL p1 x0 p2], "")
-  | "RotateLeftConstant" => some ([rotl p0 (x0 % 2^p0) p2 % 2^p1], if p0 < p1 then "rotate-constant-wide-output" else "")
-  | "RotateRightConstant" => some ([rotr p0 (x0 % 2^p0) p2 % 2^p1], if p0 < p1 then "rotate-constant-wide-output" else "")
+  -- (the class "rotate-constant-wide-output", p0 < p1, is gone: repaired in /repo 6b4070f, theorem now holds for every rw)
+  | "RotateLeftConstant" => some ([rotl p0 (x0 % 2^p0) p2 % 2^p1], "")
+  | "RotateRightConstant" => some ([rotr p0 (x0 % 2^p0) p2 % 2^p1], "")
   -- p = [aw,rw,zw]  x = [a]   outputs [r, z]  (z is specified for a 1-bit z wire only)
   | "CountLeadingZeros" => some ([countLeadingZeros p0 p1 x0] ++ (if p2 = 1 then [isZero p0 x0] else []), "")
   -- p = [aw,rw]
